@@ -13,7 +13,7 @@ func init() {
 	Registry["C11"] = func(tier string) int {
 		return engineA("C11", tier, []scen.Spec{scen.Criteria(), scen.Basket()},
 			func() []explore.Monitor { return []explore.Monitor{&mon.C11{}} },
-			budget(tier, 100*time.Second, 15*time.Minute),
+			budget(tier, 150*time.Second, 15*time.Minute),
 			"C11 alphabet bound: single put/take amounts below 34 significant digits (larger ones are refused by the exact conversion, DESIGN §12)")
 	}
 }
